@@ -74,10 +74,11 @@ const (
 
 // Issue is one reason why a value does not coerce.
 type Issue struct {
-	Path Path
-	Kind string
-	Type string // type expected at the position
-	Got  string // compact text of the offending value
+	Path  Path
+	Kind  string
+	Type  string // type expected at the position
+	Got   string // compact text of the offending value
+	Field string // for missing-required-field / oneof-null: the field concerned
 	// Ctx describes the enclosing input field for recognisers: the nearest enclosing input
 	// object field (type.field) and whether it declares a default.
 	FieldOwner      string
@@ -85,6 +86,9 @@ type Issue struct {
 }
 
 func (i Issue) String() string {
+	if i.Field != "" {
+		return fmt.Sprintf("%s at %s field %s (expected %s, got %s)", i.Kind, i.Path, i.Field, i.Type, i.Got)
+	}
 	return fmt.Sprintf("%s at %s (expected %s, got %s)", i.Kind, i.Path, i.Type, i.Got)
 }
 
@@ -228,7 +232,9 @@ func (c *coercer) json(t *Type, v *Value, p Path) *Value {
 					}
 					out.O = append(out.O, Member{f.Name, dv})
 				} else if ft.NonNull {
-					c.add(fp, IssMissingField, ft, nil)
+					// located at the object that lacks the field
+					c.add(p, IssMissingField, ft, nil)
+					c.issues[len(c.issues)-1].Field = f.Name
 				}
 				continue
 			}
@@ -241,7 +247,9 @@ func (c *coercer) json(t *Type, v *Value, p Path) *Value {
 			if len(v.O) != 1 {
 				c.add(p, IssOneOfCount, t, v)
 			} else if v.O[0].V.K == VNull {
-				c.add(p.with(Seg{Name: v.O[0].Key}), IssOneOfNull, t, v.O[0].V)
+				// a constraint of the object: located at the object
+				c.add(p, IssOneOfNull, t, v.O[0].V)
+				c.issues[len(c.issues)-1].Field = v.O[0].Key
 			}
 		}
 		return out
